@@ -27,8 +27,6 @@ Parts
   flip    one valid encoding per (type, format): every single-bit flip of every integer /
           coordinate / seed field (re-encoded): whatever is accepted satisfies the invariants
 """
-import signal
-
 from ..common import Acc, chunks, exc_site, short, seeded, seeded_int, SEED
 from ..ref import nt
 from ..ref import rsa as RR
@@ -48,107 +46,7 @@ RULE = ("complete enumeration of the stated finite grids (see parts): small-scop
         "library outcome class) tuples actually observed")
 BUDGET = {"quick": 200, "thorough": 1500}
 
-# ---------------------------------------------------------------------------
-# seams: deterministic bases for the library's probabilistic primality test, hang guard
-# ---------------------------------------------------------------------------
-import hashlib
-
-
-class _DetRandom:
-    """Stand-in for the module Crypto.Random as seen by Crypto.Math.Primality and
-    Crypto.Math._IntegerBase: Miller-Rabin bases in construct()/import_key() are drawn from it.
-    The stream is a function of the label set by reset() (the case), so every case replays."""
-    def __init__(self):
-        self.reads = 0
-        self.reset(b"")
-
-    def reset(self, label):
-        self.label = label
-        self.ctr = 0
-
-    def new(self, *a, **kw):
-        return self
-
-    def read(self, n):
-        self.reads += 1
-        out = b""
-        while len(out) < n:
-            out += hashlib.sha512(b"c05|%d|%d|" % (SEED, self.ctr) + self.label).digest()
-            self.ctr += 1
-        return out[:n]
-
-    get_random_bytes = read
-
-
-_DET = _DetRandom()
-_SEAM = None
-
-
-def install_seams():
-    global _SEAM
-    if _SEAM is not None:
-        return _SEAM
-    from Crypto.Math import Primality, _IntegerBase
-    if not hasattr(Primality, "Random") or not hasattr(_IntegerBase, "Random"):
-        _SEAM = False
-        return False
-    Primality.Random = _DET
-    _IntegerBase.Random = _DET
-    before = _DET.reads
-    _DET.reset(b"probe")
-    r = Primality.test_probable_prime(10007 * 10009)
-    _SEAM = (_DET.reads > before and r == Primality.COMPOSITE)
-    signal.signal(signal.SIGVTALRM, _on_alarm)
-    return _SEAM
-
-
-class Hang(BaseException):
-    pass
-
-
-def _on_alarm(sig, frm):
-    raise Hang()
-
-
-CPU_BUDGET = 0.15      # seconds of process CPU time for one small-scope call (typical: 50 microseconds)
-
-
-def guarded(fn, budget=CPU_BUDGET):
-    """-> ('ok', value) | ('exc', exception) | ('hang', None).  ITIMER_VIRTUAL counts CPU time of this
-    process only, so the verdict does not depend on the load of the machine."""
-    signal.setitimer(signal.ITIMER_VIRTUAL, budget)
-    try:
-        try:
-            r = ("ok", fn())
-        finally:
-            signal.setitimer(signal.ITIMER_VIRTUAL, 0)
-        return r
-    except Hang:
-        return ("hang", None)
-    except Exception as ex:  # noqa
-        return ("exc", ex)
-
-
-_PRIMES = frozenset(nt.sieve(6000))
-
-
-def isp(v):
-    if v < 6000:
-        return v in _PRIMES
-    return nt.is_prime(v)
-
-
-def uniq(seq):
-    out = []
-    for v in seq:
-        if v not in out:
-            out.append(v)
-    return out
-
-
-def tsize(tup):
-    return sum(abs(int(v)).bit_length() + 1 for v in tup)
-
+from ._c05_base import _DET, install_seams, guarded, Hang, CPU_BUDGET, isp, uniq, tsize
 
 # ---------------------------------------------------------------------------
 # RSA
@@ -279,7 +177,7 @@ def check_rsa(tup, acc, via="construct", budget=CPU_BUDGET):
         "construct" if via == "construct" else "import_key(%s)" % via, L, short(list(tup)))
     script = _SCRIPT_RSA % (tup,) if via == "construct" else None
     if st == "hang":
-        acc.violation("C05/rsa/%s/hang" % via,
+        acc.violation("C05/rsa/hang",
                       pre + ": the call does not return (more than %.2f s of CPU time; typical 50 us) - an input "
                       "violating the invariants must be refused with ValueError" % budget,
                       case, script=script, size=tsize(tup))
@@ -288,22 +186,22 @@ def check_rsa(tup, acc, via="construct", budget=CPU_BUDGET):
         if isinstance(val, ValueError):
             return "ValueError"
         name = type(val).__name__
-        acc.violation("C05/rsa/%s/%s@%s/%s" % (via, name, exc_site(val), rsa_degenerate(tup)),
-                      pre + ": raised %s: %s (reference class of the input: %s; the property demands ValueError)"
-                      % (name, val, rsa_input_class(tup)), case, script=script, size=tsize(tup))
+        acc.violation("C05/rsa/%s/%s" % (name, rsa_degenerate(tup)),
+                      pre + ": raised %s: %s at %s (reference class of the input: %s; the property demands ValueError)"
+                      % (name, val, exc_site(val), rsa_input_class(tup)), case, script=script, size=tsize(tup))
         return name
     key = val
     prop, other = rsa_key_bad(key)
     attrs = {a: int(getattr(key, a)) for a in (("n", "e", "d", "p", "q", "u") if key.has_private() else ("n", "e"))}
     if prop:
-        acc.violation("C05/rsa/%s/returned-key/%s" % (via, prop[0]),
+        acc.violation("C05/rsa/returned-key/%s" % prop[0],
                       pre + ": returned a key with %s, which violates: %s" % (short(attrs), ", ".join(prop)),
                       case, script=script, size=tsize(tup))
         return "key!"
     if L >= 5:
         inb = rsa_input_bad(tup)
         if inb:
-            acc.violation("C05/rsa/%s/invalid-input-accepted/%s" % (via, inb[0]),
+            acc.violation("C05/rsa/invalid-input-accepted/%s" % inb[0],
                           pre + ": the input violates %s but a key was returned (%s)" % (", ".join(inb), short(attrs)),
                           case, script=script, size=tsize(tup))
             return "key!"
@@ -523,7 +421,7 @@ def check_dsa(tup, acc, via="construct", budget=CPU_BUDGET):
         "construct" if via == "construct" else "import_key(%s)" % via, len(tup), short(list(tup)))
     script = _SCRIPT_DSA % (tup,) if via == "construct" else None
     if st == "hang":
-        acc.violation("C05/dsa/%s/hang" % via, pre + ": the call does not return within %.2f s of CPU time" % budget,
+        acc.violation("C05/dsa/hang", pre + ": the call does not return within %.2f s of CPU time" % budget,
                       case, script=script, size=tsize(tup))
         return "hang"
     if st == "exc":
@@ -531,8 +429,8 @@ def check_dsa(tup, acc, via="construct", budget=CPU_BUDGET):
             return "ValueError"
         name = type(val).__name__
         deg = "p=0" if p == 0 else "q=0" if q == 0 else "negative" if min(tup) < 0 else "other"
-        acc.violation("C05/dsa/%s/%s@%s/%s" % (via, name, exc_site(val), deg),
-                      pre + ": raised %s: %s (the property demands ValueError)" % (name, val),
+        acc.violation("C05/dsa/%s/%s" % (name, deg),
+                      pre + ": raised %s: %s at %s (the property demands ValueError)" % (name, val, exc_site(val)),
                       case, script=script, size=tsize(tup))
         return name
     key = val
@@ -544,13 +442,13 @@ def check_dsa(tup, acc, via="construct", budget=CPU_BUDGET):
     else:
         inp = dsa_bad(p, q, g, y, x)[0]
     if prop:
-        acc.violation("C05/dsa/%s/returned-key/%s" % (via, prop[0]),
+        acc.violation("C05/dsa/returned-key/%s" % prop[0],
                       pre + ": returned a key (p=%s q=%s g=%s y=%s x=%s) which violates: %s"
                       % (short(rp), short(rq), short(rg), short(ry), short(rx), ", ".join(prop)),
                       case, script=script, size=tsize(tup))
         return "key!"
     if inp:
-        acc.violation("C05/dsa/%s/invalid-input-accepted/%s" % (via, inp[0]),
+        acc.violation("C05/dsa/invalid-input-accepted/%s" % inp[0],
                       pre + ": the input violates %s but a key was returned" % ", ".join(inp),
                       case, script=script, size=tsize(tup))
         return "key!"
@@ -700,7 +598,7 @@ def check_elg(tup, acc, budget=CPU_BUDGET):
     pre = "ElGamal.construct, components (p, g, y, x)[:%d] = %s" % (len(tup), short(list(tup)))
     script = _SCRIPT_ELG % (tup,)
     if st == "hang":
-        acc.violation("C05/elgamal/construct/hang", pre + ": the call does not return within %.2f s of CPU time" % budget,
+        acc.violation("C05/elgamal/hang", pre + ": the call does not return within %.2f s of CPU time" % budget,
                       case, script=script, size=tsize(tup))
         return "hang"
     if st == "exc":
@@ -708,8 +606,8 @@ def check_elg(tup, acc, budget=CPU_BUDGET):
             return "ValueError"
         name = type(val).__name__
         deg = "p=0" if p == 0 else "negative" if min(tup) < 0 else "other"
-        acc.violation("C05/elgamal/construct/%s@%s/%s" % (name, exc_site(val), deg),
-                      pre + ": raised %s: %s (the property demands ValueError)" % (name, val),
+        acc.violation("C05/elgamal/%s/%s" % (name, deg),
+                      pre + ": raised %s: %s at %s (the property demands ValueError)" % (name, val, exc_site(val)),
                       case, script=script, size=tsize(tup))
         return name
     key = val
@@ -718,12 +616,12 @@ def check_elg(tup, acc, budget=CPU_BUDGET):
     prop, obs = elg_bad(rp, rg, ry, rx)
     inp = elg_bad(p, g, y, x)[0]
     if prop:
-        acc.violation("C05/elgamal/construct/returned-key/%s" % prop[0],
+        acc.violation("C05/elgamal/returned-key/%s" % prop[0],
                       pre + ": returned a key (p=%s g=%s y=%s x=%s) which violates: %s"
                       % (short(rp), short(rg), short(ry), short(rx), ", ".join(prop)), case, script=script, size=tsize(tup))
         return "key!"
     if inp:
-        acc.violation("C05/elgamal/construct/invalid-input-accepted/%s" % inp[0],
+        acc.violation("C05/elgamal/invalid-input-accepted/%s" % inp[0],
                       pre + ": the input violates %s but a key was returned" % ", ".join(inp), case, script=script,
                       size=tsize(tup))
         return "key!"
